@@ -1122,8 +1122,11 @@ def _parse_times(times, max_step, dt, start_time):
         if index_end < 0 or index_end > max_step:
             raise IndexError("Specified end time is out of bound.")
         direction = 1 if index_start <= index_end else -1
+        index_stop = index_end + direction
+        if index_stop < 0:
+            index_stop = None # a descending interval that ends at step 0
         ret_times = np.arange(
-                max_step + 1)[index_start:index_end+direction:direction]
+                max_step + 1)[index_start:index_stop:direction]
     else:
         raise TypeError("Parameters `times_a` and `times_b` must be either " \
             + "int, slice, list, or tuple.")
